@@ -1,5 +1,5 @@
-// Harness for the properties that need the REAL arc process (L2): C05 (WAL crash
-// recovery), C04 (no payload crashes the server), C07 (backpressure / outages).
+// Harness for the query-governance area: C28 (query rate limits and quotas are
+// never exceeded).
 package main
 
 import (
@@ -15,10 +15,8 @@ func main() {
 	flag.String("replay", "", "replay file")
 	flag.Parse()
 	switch *prop {
-	case "C05":
-		vlib.Main("C05", "fault_enumeration", checkC05)
-	case "C04":
-		vlib.Main("C04", "exploration", checkC04)
+	case "C28":
+		vlib.Main("C28", "exploration", checkC28)
 	default:
 		fmt.Println("unknown property", *prop)
 		os.Exit(2)
